@@ -393,8 +393,14 @@ def r5_agree(run, F):
         run.ob("R5-DEPTH-LIMITS", c, va == vd, "src/alpha/parser.rs / src/delta/parser.rs", "%s: alpha %s, delta %s" % (c, va, vd))
     # ... and the same number of reference steps is the largest accepted one
     ar = F.body("alpha::parser::parse_rest_of_reference")
-    conds = [hirq.summarize_bool(n["cond"]) for n in walk(ar["hir"]) if n.get("k") == "If" and "MAX_REFERENCE_DEPTH" in str(hirq.summarize_bool(n["cond"]))]
-    a_max = {"(steps.len() > MAX_REFERENCE_DEPTH)": 0, "(steps.len() >= MAX_REFERENCE_DEPTH)": -1}.get(conds[0]) if len(conds) == 1 else None
+    conds = []
+    for n in walk(ar["hir"]):
+        c_ = hirq.unwrap_trivial(n["cond"]) if n.get("k") == "If" else {}
+        if c_.get("k") == "Binary" and c_.get("op") in ("Gt", "Ge") and "MAX_REFERENCE_DEPTH" in str(hirq.unwrap_trivial(c_["rhs"]).get("res", "")):
+            l_ = hirq.unwrap_trivial(c_["lhs"])
+            if l_.get("k") == "MethodCall" and l_.get("name") == "len":
+                conds.append(c_["op"])      # <number of steps so far>.len() > / >= MAX_REFERENCE_DEPTH
+    a_max = {"Gt": 0, "Ge": -1}.get(conds[0]) if len(conds) == 1 else None
     dr = F.body("delta::parser::parse_deref_steps_list")
     d_max = None
     for m in hirq.matches(dr["hir"], msrc=None):
